@@ -38,6 +38,38 @@ CM_H = 'src/tbb/concurrent_monitor.h'
 CQ_H = 'include/oneapi/tbb/concurrent_queue.h'
 
 MUTANTS = [
+    dict(name='c09-seed2-wakeup-predicate-equality', prop='C09', clause='D5', edits=[('src/tbb/concurrent_bounded_queue.cpp',
+        "    bool operator() ( std::uintptr_t ticket ) const { return static_cast<std::size_t>(ticket) <= my_ticket; }",
+        "    bool operator() ( std::uintptr_t ticket ) const { return static_cast<std::size_t>(ticket) == my_ticket; }")]),
+    dict(name='c02-seed2-wakeup-predicate-equality', prop='C02', clause='D5', edits=[('src/tbb/concurrent_bounded_queue.cpp',
+        "    bool operator() ( std::uintptr_t ticket ) const { return static_cast<std::size_t>(ticket) <= my_ticket; }",
+        "    bool operator() ( std::uintptr_t ticket ) const { return static_cast<std::size_t>(ticket) == my_ticket; }")]),
+    dict(name='c11-seed2-block-zero-fill-across-segments', prop='C11', clause='D8', edits=[(CV_H, """                for (size_type i = idx; i < end_idx; ++i) {
+                    // Only the last segment of the range is allocated in advance,
+                    // the segments between the failed element and the last one may be not allocated yet
+                    if (table[this->segment_index_of(i)].load(std::memory_order_relaxed) > this->segment_allocation_failure_tag) {
+                        zero_unconstructed_elements(&this->internal_subscript(i), /*count =*/1);
+                    }
+                }
+            });
+            segment_table_allocator_traits::construct(base_type::get_allocator(), element_address, args...);""", """                if (idx < end_idx && table[this->segment_index_of(idx)].load(std::memory_order_relaxed) > this->segment_allocation_failure_tag) {
+                    zero_unconstructed_elements(&this->internal_subscript(idx), /*count =*/end_idx - idx);
+                }
+            });
+            segment_table_allocator_traits::construct(base_type::get_allocator(), element_address, args...);""")]),
+    dict(name='c11-cleanup-touches-unallocated-segment', prop='C11', clause='D8', edits=[(CV_H, """                for (size_type i = idx; i < end_idx; ++i) {
+                    // Only the last segment of the range is allocated in advance,
+                    // the segments between the failed element and the last one may be not allocated yet
+                    if (table[this->segment_index_of(i)].load(std::memory_order_relaxed) > this->segment_allocation_failure_tag) {
+                        zero_unconstructed_elements(&this->internal_subscript(i), /*count =*/1);
+                    }
+                }
+            });
+            segment_table_allocator_traits::construct(base_type::get_allocator(), element_address, args...);""", """                for (size_type i = idx; i < end_idx; ++i) {
+                    zero_unconstructed_elements(&this->internal_subscript(i), /*count =*/1);
+                }
+            });
+            segment_table_allocator_traits::construct(base_type::get_allocator(), element_address, args...);""")]),
     dict(name='c05-seed2-3d-ratio-wrong-grainsize', prop='C05', clause='D2', edits=[('include/oneapi/tbb/blocked_range3d.h',
         "            if ( my_rows.size()*double(my_cols.grainsize()) < my_cols.size()*double(my_rows.grainsize()) ) {",
         "            if ( my_rows.size()*double(my_cols.grainsize()) < my_cols.size()*double(my_cols.grainsize()) ) {")]),
